@@ -31,8 +31,14 @@ def py_tight(e):
         ch = e["chain"]
         if not ch or ch[-1]["ctype"] != "...":
             return False
+        ptr = "*" in e["ret_type"]
         for h in ch:
-            if not h["returns"] or h["ret"] not in T.CODES or ("notify:" + h["ret"]) not in h["actions"]:
+            if not h["returns"]:
+                return False
+            if ptr:       # pointer entry: null pointer + exactly one documented enumerator passed to the handler
+                if h["ret"] not in ("nullptr", "NULL", "0") or len([a for a in h["actions"] if a.startswith("notify:") and a[7:] in T.CODES]) != 1:
+                    return False
+            elif h["ret"] not in T.CODES or ("notify:" + h["ret"]) not in h["actions"]:
                 return False
             if any(a.startswith("call:") and a[5:] not in ("what", "reset_timeout", "reset_deterministic_timeout") for a in h["actions"]):
                 return False
@@ -150,13 +156,14 @@ def model_eval(chk, facts, obs):
     lines = ["From Coq Require Import List String ZArith.",
              "Require Import PPLV.CIface.Exn PPLV.CIface.Entries PPLV.CIface.Spec PPLV.gen.Facts_CIface.",
              "Import ListNotations.", "Open Scope string_scope.",
-             "Definition dummy := mkEntry \"\" 0 false [] [] false.",
+             "Definition dummy := mkEntry \"\" 0 false [] [] false false.",
              "Definition zcode (c : ecode) : Z := match value_of enum_error_code c with Some z => z | None => 1%Z end.",
              "Definition spec (c : option cls) : Z := documented_value (match c with Some c => documented_code c | None => ERROR_UNEXPECTED_ERROR end).",
              "Definition expect (o : nat * string * option cls) : Z * Z * Z :=",
              "  let '(i, n, c) := o in let en := nth i entries dummy in (fun p : Z * Z => (fst p, snd p, spec c))",
              "  (if negb (String.eqb (e_name en) n) then (2, 2)%Z else",
              "  match run_entry en (Throws (match c with Some c => of_class c | None => foreign end)) with",
+             "  | (ReturnedNull, eff) => (0%Z, match eff with [E_notify k2] => zcode k2 | _ => 3%Z end)",
              "  | (ReturnedCode k, eff) => (zcode k, match eff with [E_notify k2] => zcode k2 | E_reset_timeout :: [E_notify k2] => zcode k2",
              "                                        | E_reset_det_timeout :: [E_notify k2] => zcode k2 | _ => 3%Z end)",
              "  | (Escaped _, _) => (4, 4)%Z",
